@@ -67,7 +67,7 @@ fn get_query_components(
         Option<ASTNode>,
         Option<Vec<OrderByExpr>>,
         Option<ASTNode>,
-        Option<Offset>,
+        Option<ASTNode>,
     ),
     QueryError,
 > {
@@ -106,9 +106,13 @@ fn get_query_components(
             } else {
                 let (limit, offset) = match limit_clause {
                     Some(sqlparser::ast::LimitClause::LimitOffset { limit, offset, .. }) => {
-                        (limit, offset)
+                        (limit, offset.map(|o| o.value))
                     }
-                    _ => (None, None),
+                    // `LIMIT <offset>, <limit>`
+                    Some(sqlparser::ast::LimitClause::OffsetCommaLimit { offset, limit }) => {
+                        (Some(limit), Some(offset))
+                    }
+                    None => (None, None),
                 };
                 Ok((
                     projection,
@@ -207,10 +211,10 @@ fn get_limit(limit: Option<ASTNode>) -> Result<u64, QueryError> {
     }
 }
 
-fn get_offset(offset: Option<Offset>) -> Result<u64, QueryError> {
+fn get_offset(offset: Option<ASTNode>) -> Result<u64, QueryError> {
     match offset {
         None => Ok(0),
-        Some(offset) => match offset.value {
+        Some(offset) => match offset {
             ASTNode::Value(ValueWithSpan {
                 value: Value::Number(rows, _),
                 ..
